@@ -107,6 +107,13 @@ def _impl_do(op):
     if kind == "DECSRC":
         _, mode, tname, cc, enc, data, src = op
         return canon.impl_dec(mode, tname, cc, enc, data, source=src)
+    if kind == "DECROOT":
+        # the same decode below a caller-supplied root path; the prefix is stripped again so that the lines are comparable
+        _, mode, tname, cc, enc, data, root = op
+        import re
+        out = canon.impl_dec(mode, tname, cc, enc, data, root=root)
+        return [re.sub(re.escape(root) + r"(?=[ .\[]|$)", lambda m: "", l).replace("= ", "= ") if root in l else l for l in
+                [re.sub(r"(?<=[ =])" + re.escape(root) + r"(?=[ ]|$)", ".", l) for l in out]]
     if kind == "OBJ":
         _, mode, tname, cc, enc, data = op
         return canon.impl_objects(mode, tname, cc, enc, data)
